@@ -194,6 +194,8 @@ class Interp:
                 elif strip_tmpl(nn.get("name", "")) in self.env.fields_seen_unanalysed:
                     d.unk.add(sym)
             if nn.get("k") == "ref" and nn.get("dk") == "param":
+                if self.env.param_owner.get(nn["decl"]) not in self.env.open_fns and self.depth == 0:
+                    d.unk.add(sym)   # value comes from analysed call sites through a context-free summary: relations are lost
                 inv = self.env.param_inv.get(nn["decl"])
                 if inv is not None:
                     up, tnt = inv
@@ -844,6 +846,30 @@ class Interp:
 
     PTR_CALLS = ("constData", "data", "unicode", "utf16", "constBegin", "cbegin", "begin", "c_str")
 
+    def helper_to_inline(self, n):
+        """a call to a non-virtual helper of the same class or file (private / static member, file-local function): analysed in the
+        context of this call site, like a lambda, so that relations between its arguments (index < size of the container passed
+        along) are not lost in a context-free summary"""
+        f = self.F.fns.get(n.get("fn")) if n.get("fn") else None
+        if f is None or f.body is None or n.get("virtual") or f.d.get("virtual") or f.d.get("kind") in ("ctor", "dtor", "conv") or f.lambda_of:
+            return None
+        if f.id == self.fn.id or f.id in getattr(self, "inline_stack", ()):
+            self.env.not_inlined.add(f.id)
+            return None
+        same_file = (f.file or "") == (self.fn.file or "")
+        local = "(anonymous namespace)" in f.name and same_file
+        sibling = bool(f.cls) and f.cls == self.fn.cls
+        if n.get("ck") == "member" and sibling:
+            ob = skip_copies(n.get("obj")) if isinstance(n.get("obj"), dict) else None
+            if ob is not None and ob.get("k") != "this":
+                sibling = False      # a method of another object of the class
+        if not (local or sibling) or f.id in self.env.root_ids:
+            return None
+        if self.depth > 3:
+            self.env.not_inlined.add(f.id)
+            return None
+        return f
+
     def check_raw_extents(self, n, st):
         """(pointer, count) argument pairs: when the pointer is the buffer of a container the analysis tracks
         (`blanks.constData()`), reading `count` elements from it must stay inside that container"""
@@ -902,6 +928,11 @@ class Interp:
                 return self.inline(self.lambdas[f0["decl"]], args[1:], st, n)
         if ck == "operator":
             return self.eval_operator_call(n, st)
+        hf = self.helper_to_inline(n)
+        if hf is not None:
+            if n.get("ck") == "member" and isinstance(n.get("obj"), dict):
+                self.eval(n.get("obj"), st)
+            return self.inline(hf.id, args, st, n)
         if ck == "member":
             obj = n.get("obj")
             if is_container_type(typ(obj)) or is_container_type(strip_tmpl(n.get("cls") or "")):
@@ -1322,6 +1353,31 @@ class Interp:
         return self.call_result(n, st) if is_int_type(typ(n)) else None
 
     # ------------------------------------------------------------------ inlining
+    def bind_params(self, f, args, vals, st):
+        """parameters of an inlined callee: integers get the argument values, containers the argument's length; returns the
+        (argument length, parameter length) pairs to copy back for non-const reference parameters"""
+        back = []
+        for p, a, v in zip(f.params, args, vals):
+            t = p.get("type", "")
+            if is_int_type(t) or self.env.enum_range(t):
+                s_ = "v:" + p["decl"]
+                self.names.setdefault(s_, p.get("name"))
+                self.assign(st, s_, v, unknown=v is None)
+            elif is_container_type(t.replace("&", "").strip()):
+                lp = "len(v:%s)" % p["decl"]
+                self.names.setdefault(lp, "|%s|" % p.get("name"))
+                la = self.len_sym(a, st)
+                lv = Lin.sym(la) if la is not None else self.cval(a, st)
+                mx = max_len_of(t)
+                if lv is None:
+                    self.havoc_len(st, lp, mx)
+                else:
+                    self.assign(st, lp, lv)
+                    st.each(lambda d, lp=lp, mx=mx: (d.add_lower(lp, 0), d.add_upper(lp, mx)))
+                if la is not None and "&" in t and not t.strip().startswith("const "):
+                    back.append((la, lp))
+        return back
+
     def inline_cond(self, fid, args, st, call):
         """a boolean lambda used as a condition: (states where it returns true, states where it returns false)"""
         f = self.F.fns.get(fid)
@@ -1336,15 +1392,11 @@ class Interp:
         sub.strarrays = self.strarrays
         sub.names = self.names
         sub.depth = self.depth + 1
+        sub.inline_stack = tuple(getattr(self, "inline_stack", ())) + (self.fn.id,)
         sub.ctx = ["%s:%d" % (self.fn.loc().rsplit(":", 1)[0].split("/")[-1], call.get("l", 0))] + self.ctx
         sub.tracked_bools = sub.tracked_bools | self.tracked_bools
         sub.ret_as_cond = True
-        for p, a, v in zip(f.params, args, vals):
-            t = p.get("type", "")
-            if is_int_type(t) or self.env.enum_range(t):
-                s_ = "v:" + p["decl"]
-                self.names.setdefault(s_, p.get("name"))
-                self.assign(st, s_, v, unknown=v is None)
+        self.bind_params(f, args, vals, st)
         flow = sub.exec(f.body, st)
         ts, fs = [], []
         for rs, rv in flow.ret:
@@ -1362,6 +1414,7 @@ class Interp:
                         dead.add("v:" + v["decl"])
         for p in f.params:
             dead.add("v:" + p["decl"])
+            dead.add("len(v:%s)" % p["decl"])
         t, fl = join_all(ts), join_all(fs)
         for x in (t, fl):
             x.forget(syms=list(dead))
@@ -1383,12 +1436,7 @@ class Interp:
         sub.depth = self.depth + 1
         sub.ctx = ["%s:%d" % (self.fn.loc().rsplit(":", 1)[0].split("/")[-1], call.get("l", 0))] + self.ctx
         sub.tracked_bools = sub.tracked_bools | self.tracked_bools
-        for p, a, v in zip(f.params, args, vals):
-            t = p.get("type", "")
-            if is_int_type(t) or self.env.enum_range(t):
-                s = "v:" + p["decl"]
-                self.names.setdefault(s, p.get("name"))
-                self.assign(st, s, v, unknown=v is None)
+        back = self.bind_params(f, args, vals, st)
         flow = sub.exec(f.body, st.copy())
         rets = list(flow.ret)
         if not flow.normal.is_bottom():
@@ -1400,6 +1448,8 @@ class Interp:
                 continue
             rs = rs.copy()
             self.assign(rs, r, rv, unknown=False)
+            for la, lp in back:          # non-const reference parameter: the caller's container has the callee's final length
+                self.assign(rs, la, Lin.sym(lp))
             outs.append(rs)
         j = join_all(outs)
         # locals of the inlined body are dead
@@ -1411,6 +1461,7 @@ class Interp:
                         dead.add("v:" + v["decl"])
         for p in f.params:
             dead.add("v:" + p["decl"])
+            dead.add("len(v:%s)" % p["decl"])
         j.forget(syms=[s for s in dead], bools=[s[2:] for s in dead if s[2:] in sub.tracked_bools and s[2:] not in self.tracked_bools])
         st.parts = j.parts
         return Lin.sym(r) if is_int_type(typ(call)) else None
@@ -1504,6 +1555,12 @@ class Interp:
                     return self.cond(r[1], st)
                 finally:
                     self.depth -= 1
+        if k == "call" and typ(n).replace("const ", "").strip() == "bool":
+            hf = self.helper_to_inline(n)
+            if hf is not None:
+                r = self.inline_cond(hf.id, n.get("args", []), st, n)
+                if r is not None:
+                    return r
         if k == "call" and n.get("ck") == "operator" and n.get("op") == "()" and n.get("args"):
             f0 = skip_copies(n["args"][0])
             if isinstance(f0, dict) and f0.get("k") == "ref" and f0.get("decl") in self.lambdas and self.depth <= 3:
@@ -2121,6 +2178,8 @@ class Env:
         self.analysed = set()
         self.inlined = set()
         self.open_fns = set()        # functions with callers outside the analysed set (their parameters are unconstrained)
+        self.not_inlined = set()     # helpers with at least one call site that was not analysed in context
+        self.root_ids = set()
         self.param_owner = {}
         self._enum_cache = {}
 
@@ -2260,6 +2319,7 @@ def analyse(facts, fns, max_rounds=6, roots=()):
     env.analysed = {f.id for f in fns}
     order = sorted(fns, key=lambda f: (f.file, f.line, f.sig))
     rootids = {f.id for f in roots}
+    env.root_ids = set(rootids)
     # a function is closed when every call site that can reach it lies in an analysed function
     callers = {}
     for g in facts.fns.values():
@@ -2321,7 +2381,7 @@ def analyse(facts, fns, max_rounds=6, roots=()):
     for f in order:
         if f.body is None:
             continue
-        if f.id in inlined and f.lambda_of:
+        if f.id in inlined and (f.lambda_of or (f.id not in env.not_inlined and f.id not in env.open_fns)):
             env.skipped_inlined.append(f.sig)   # analysed in the context of each call site instead
             continue
         run(f, True)
